@@ -16,7 +16,26 @@ class FieldData:
           "The header tag VN cannot be set to {}\n".format(value)+
           "The version of the Gfa is {}".format(expected))
 
+  def _declares_version(self, fieldname, value):
+    # (a VN given to the header of a Gfa which has no version yet is the
+    # declaration of the version, as an H line with that tag)
+    return fieldname == "VN" and value is not None and \
+        self.is_connected() and self.get("VN") is None and \
+        self._gfa.version is None and \
+        not self.__dict__.get("_declaring_version", False)
+
+  def _declare_version(self, value):
+    # (the H line is merged into this header: the tag is then set as usual)
+    self.__dict__["_declaring_version"] = True
+    try:
+      self._gfa.add_line("H\tVN:Z:{}".format(value))
+    finally:
+      self.__dict__["_declaring_version"] = False
+
   def set(self, fieldname, value):
+    if self._declares_version(fieldname, value):
+      self._declare_version(value)
+      return
     self._check_new_vn(fieldname, value)
     return super().set(fieldname, value)
 
@@ -25,6 +44,8 @@ class FieldData:
       raise gfapy.RuntimeError(
         "The value of the header tag VN cannot be edited\n"+
         "For version conversion use to_gfa1 or to_gfa2")
+    elif self._declares_version(fieldname, value):
+      self._declare_version(value)
     else:
       self._check_new_vn(fieldname, value)
       super()._set_existing_field(fieldname, value,
